@@ -570,6 +570,16 @@ fn c07_cases(quick: bool) -> Vec<Case> {
                     let conj: Vec<Tr> = leaves.iter().map(|l| Tr::Dfs(Box::new(Tr::Conj(vec![l.clone(), Tr::Leaf(k as u16)])))).collect();
                     out.push(Case { tree: Tr::Conde(conj.clone()), leaves: l4.clone() });
                     out.push(Case { tree: Tr::Disj(conj), leaves: l4 });
+                    // a branch that produces nothing wrapped in loop{}: `loop { diverger }` and
+                    // `loop { false }` among productive siblings (the loop must stay lazy)
+                    for (bi, (sc, _)) in a.iter().enumerate() {
+                        if !sc.has_answer() {
+                            let mut wrapped = leaves.clone();
+                            wrapped[bi] = Tr::Anyo(Box::new(leaves[bi].clone()));
+                            out.push(Case { tree: Tr::Conde(wrapped.clone()), leaves: a.clone() });
+                            out.push(Case { tree: Tr::Disj(wrapped), leaves: a.clone() });
+                        }
+                    }
                     // a statically failing branch (`false`) in every position among the others:
                     // the remaining branches keep their turns
                     for pos in 0..=k {
